@@ -396,11 +396,12 @@ func (e *env) check(c *tcase, o outcome) (fs []finding, firstReason string, refA
 			}
 		}
 		if eligible && len(o.seen) < k {
-			fs = append(fs, finding{fmt.Sprintf("allowed-but-not-sent:%s:%s:%s", c.kind, c.group, c.resClass),
+			pos := len(o.seen) // first plainly allowed URL of the chain that was not contacted
+			fs = append(fs, finding{fmt.Sprintf("allowed-but-not-sent:%s:url%d:%s", c.kind, pos, hostGroup(c.chain[pos].Host)),
 				fmt.Sprintf("the policy (%s) allows the first %d URL(s) of the chain starting at %q but only %d request(s) were sent (err=%v)", e.pol.label(), k, c.url, len(o.seen), o.err)})
 		}
 		if eligible && k == len(c.chain) && (e.pol.Redirects || len(c.chain) == 1) && (o.err != nil || o.status != 200) {
-			fs = append(fs, finding{fmt.Sprintf("allowed-but-failed:%s:%s:%s", c.kind, c.group, c.resClass),
+			fs = append(fs, finding{fmt.Sprintf("allowed-but-failed:%s:%s", c.kind, hostGroup(c.chain[len(c.chain)-1].Host)),
 				fmt.Sprintf("the policy (%s) allows every URL of the chain starting at %q but Deliver returned status=%d err=%v", e.pol.label(), c.url, o.status, o.err)})
 		}
 	}
@@ -1056,7 +1057,11 @@ func TestCheck(t *testing.T) {
 			r.Finish()
 		}
 		if real.HTTPSOnly != p.HTTPSOnly || real.Redirects != p.Redirects || real.DNSRebindProtection != p.Rebind || len(real.Allow) != len(p.Allow) || len(real.Deny) != len(p.Deny) {
-			r.Violation("config:egress-policy-not-carried-to-dispatcher", fmt.Sprintf("Hookaidofile egress block %s reached the dispatcher as %+v", p.label(), real), map[string]any{"policy": p}, nil)
+			const key = "config:egress-policy-not-carried-to-dispatcher"
+			rep.seen[key]++
+			if rep.seen[key] == 1 {
+				r.Violation(key, fmt.Sprintf("Hookaidofile egress block %s reached the dispatcher as %+v", p.label(), real), map[string]any{"policy": p}, nil)
+			}
 		}
 		reals[i] = real
 	}
